@@ -111,6 +111,10 @@ CHECKS["C32"] = ("qshuttle", "randomised schedule exploration (shuttle random + 
     "Generated search with shrinking over workloads (2-4 generations, swap order, five query kinds covering answer/authority/additional sections, UDP/TCP) x 60-250 schedules each.",
     _Q + " TSIG times use the real clock with a one-hour fudge.", "§4 C32")
 
+CHECKS["C30"] = ("vcheck", "proptest batches of framed requests (valid, malformed, response-less) cut into generated segments with generated pauses and pipelined over loopback TCP, plus UDP datagrams from two client sockets, against running blocking and Tokio providers in five configurations; differential against handle_message on an identically configured twin server",
+    "Generated search with shrinking; TCP: responses in request order, framed, octet-equal to the twin's, nothing extra, connection closed after the first response-less request (or after the client's EOF), also for batches ending in an incomplete frame; UDP: at most one datagram per request, equal to the twin's, from the server's address, to the socket that asked, not larger than the payload size.",
+    "OS thread scheduling is not owned (segmentation, pipelining and pauses are). Client-side timeouts (3 s; the server's read timeout is 5 s) are retried on a fresh connection and reported only after three failures in a row; a close with unread pipelined data behind it (kernel RST may discard earlier responses) is counted, not judged; TSIG time-signed of unsigned error responses may differ by 5 s.", "§4 C30")
+
 NOT_YET = {}
 
 def main():
